@@ -178,7 +178,7 @@ func checkC02(r *Run) {
 	got := NewMS()
 	nOut := 0
 	produce := func(ctx execution.ProduceContext, rec execution.Record) error {
-		r.Log("  out %s", Msg{Kind: MsgRec, Values: rec.Values, Retr: rec.Retraction, ET: rec.EventTime})
+		r.SinkLog("  out %s", Msg{Kind: MsgRec, Values: rec.Values, Retr: rec.Retraction, ET: rec.EventTime})
 		nOut++
 		d := 1
 		if rec.Retraction {
